@@ -54,6 +54,35 @@ def self_field_of(t):
     return None
 
 
+def real_guards(b, bb):
+    """Discriminant terms of the branching blocks that dominate bb and can bypass it (conditions under which bb runs)."""
+    res = []
+    for bi in b.reachable_blocks():
+        if bi == bb or not b.dominates(bi, bb):
+            continue
+        si = b.switch_info(bi)
+        if not si:
+            continue
+        succs = [t for v, t in si[1]] + [si[2]]
+        if any(bb not in b.reach(t, avoid_blocks=[bi]) for t in succs if b.blocks[t]["term"]["k"] != "unreachable"):
+            res.append(si[0])
+    return res
+
+
+def guard_ok(g, fld):
+    """A guard that only tests presence of the same field, iterates it, or propagates an earlier write error."""
+    t = g[1] if g[0] == "discr" else g
+    t = peel(t, transparent=["MessageField::as_ref", "Option::as_ref", "Option::as_deref", "Deref::deref"])
+    if self_field_of(t) == fld and not [s for s in subterms(t) if isinstance(s, tuple) and s and s[0] == "call" and not is_call(s, ["Iterator::next", "IntoIterator::into_iter", "slice::iter", "MessageField::as_ref", "Option::as_ref", "Deref::deref", "Option::as_deref"])]:
+        return True
+    if is_call(t, "Try::branch"):
+        return True
+    if is_call(t, "Iterator::next"):
+        e = elem_of(("field", ("downcast", t, "Some"), "0"))
+        return bool(e) and self_field_of(e[0]) is not None and not [a for a in e[1] if a not in ("into_iter", "iter")]
+    return False
+
+
 def rule_R1(ctx, f):
     rid = "R1"
     ctx.rule(rid, "framing: in ProtobufEncoder::encode every family of the slice, in order, passes check_metric_family(mf)? and is then written by exactly one "
@@ -135,6 +164,18 @@ def rule_R2(ctx, f):
                         tag, val = c.args[1], c.args[2]
                     fld = self_field_of(val)
                     seen[fld] = (const_int(tag), fn)
+            for c in w.calls():
+                fn = strip_generics(c.callee).split("::")[-1]
+                if fn in WRITE_FN.values():
+                    val = c.args[1] if fn == "write_message_field_with_cached_size" else c.args[2]
+                    fld = self_field_of(val)
+                    bad = [show(g)[:100] for g in real_guards(w, c.bb) if not guard_ok(g, fld)]
+                    # for repeated fields the element must come from an unfiltered iteration over self.<field>
+                    e = elem_of(peel(val))
+                    if e is not None and [a for a in e[1] if a not in ("into_iter", "iter")]:
+                        bad.append("iteration adapters %s" % e[1])
+                    ctx.ob(rid, "%s.%s|write-unconditional" % (mn, {"type_": "type"}.get(fld, fld)), not bad,
+                           "%s.%s must be written whenever it is present (for repeated fields: every element); extra conditions found: %s" % (mn, fld, bad), site=c.span)
             for fname, spec in sorted(by_name.items()):
                 got = seen.get(fname)
                 ctx.ob(rid, "%s.%s|write" % (mn, spec["name"]), got == (spec["number"], WRITE_FN[spec["kind"]]),
@@ -165,6 +206,17 @@ def rule_R2(ctx, f):
                                 a, bb_ = s.term_operand(st["rv"]["ops"][0]), s.term_operand(st["rv"]["ops"][1])
                                 if const_int(a) == 1 and const_int(bb_) in (4, 8, 1):
                                     seen[fld] = (None, "fixed%d" % const_int(bb_))
+            for c in s.calls():
+                fn = strip_generics(c.callee).split("::")[-1]
+                if (fn in SIZE_FN.values() and c.matches(re.compile(r"^protobuf::rt::"))) or c.matches("Message::compute_size"):
+                    val = c.args[0] if c.matches("Message::compute_size") else c.args[1]
+                    fld = self_field_of(val)
+                    bad = [show(g)[:100] for g in real_guards(s, c.bb) if not guard_ok(g, fld)]
+                    e = elem_of(peel(val))
+                    if e is not None and [a for a in e[1] if a not in ("into_iter", "iter")]:
+                        bad.append("iteration adapters %s" % e[1])
+                    ctx.ob(rid, "%s.%s|size-unconditional" % (mn, {"type_": "type"}.get(fld, fld)), not bad,
+                           "%s.%s must be sized whenever it is present (for repeated fields: every element); extra conditions found: %s" % (mn, fld, bad), site=c.span)
             for fname, spec in sorted(by_name.items()):
                 got = seen.get(fname)
                 k = spec["kind"]
